@@ -83,6 +83,8 @@ def seeded():
             now = "detected: " + (m.get("check_violation_lines") or [""])[0].replace("VIOLATION property=" + m["property"] + " replay=replays/", "")[:60]
         else:
             now = "**missed**" + (" — " + m["detected_by_other_check"][:200] if m.get("detected_by_other_check") else "")
+        if m.get("superseded"):
+            now += " — " + m["superseded"][:260]
         n += 1
         n_first += bool(h.get("first_run_detected", True))
         n_now += bool(m.get("detected"))
